@@ -217,14 +217,33 @@ func (c *Ctx) restoreSubscriptions() {
 	if hostCall != nil {
 		anchor = hostCall.Block()
 	}
+	// a go statement, or a call of a private helper of the connection that holds one (`svc.spawn(svc.processor)`)
+	launches := func(call ssa.CallInstruction) bool {
+		if _, ok := call.(*ssa.Go); ok {
+			return true
+		}
+		h := call.Common().StaticCallee()
+		if h == nil || h.Blocks == nil || h == fn || recvNamed(h) != "service" {
+			return false
+		}
+		for _, hc := range ir.Calls(h) {
+			if _, ok := hc.(*ssa.Go); ok {
+				return true
+			}
+		}
+		return false
+	}
+	nLaunch := 0
 	for _, call := range ir.Calls(fn) {
-		if g, ok := call.(*ssa.Go); ok {
-			if !anchor.Dominates(g.Block()) {
+		if launches(call) {
+			nLaunch++
+			if !anchor.Dominates(call.Block()) || (hostCall != nil && call.Block() == anchor && !ir.Before(hostCall.(ssa.Instruction), call.(ssa.Instruction))) {
 				// the loop is on the server path only: accept if the go is reachable from the loop exit and the only way around the loop is the client branch
 				okDom = false
 			}
 		}
 	}
+	c.R.Floor("goroutine launches in start", nLaunch, 1)
 	if !okDom {
 		// check with the client=false assumption: every path to a go statement passes the Topics() call
 		g := paths.New(c.P, fn, 0)
@@ -232,7 +251,16 @@ func (c *Ctx) restoreSubscriptions() {
 		if hostCall != nil {
 			topics = func(n paths.Node) bool { return n.Instr == ssa.Instruction(hostCall) }
 		}
-		isGo := func(n paths.Node) bool { _, ok := n.Instr.(*ssa.Go); return ok }
+		isGo := func(n paths.Node) bool {
+			if n.F != g.Root {
+				return false
+			}
+			call := paths.CallAt(n)
+			if _, ok := n.Instr.(*ssa.Go); ok {
+				return true
+			}
+			return call != nil && launches(call)
+		}
 		p := reach(g, []paths.Node{g.Entry()}, topics, isGo, Assume{"field:service.service.client": false, "err:*": false})
 		if p != nil {
 			c.R.Bad(ruleP5, "start:restore-before-goroutines", pos, "on the server path a goroutine of the connection can start before the stored subscriptions are restored", c.witness(g, p)...)
